@@ -288,9 +288,12 @@ def seed():
 def stratum(sc):
     """configuration stratum of a scenario: controller configuration x shape of the hook programmes"""
     try:
-        hooks = {h: [p.get("prog"), sorted(k for k in p if k not in ("children", "related", "body", "status"))]
+        hooks = {h: [p.get("prog"), sorted(k for k in p if k not in ("children", "related", "body", "status")),
+                     p.get("finalized"), bool(p.get("children")), p.get("code")]
                  for h, p in (sc.get("hook") or {}).items() if isinstance(p, dict)}
-        return json.dumps([sc.get("cfg"), hooks], sort_keys=True, default=str)
+        # the KINDS of steps of the schedule (which environment operations, faults, crashes occur at all)
+        steps = sorted({"%s:%s" % (st.get("s"), st.get("op") or st.get("code") or "") for st in (sc.get("sched") or []) if isinstance(st, dict)})
+        return json.dumps([sc.get("cfg"), hooks, steps], sort_keys=True, default=str)
     except Exception:
         return ""
 
